@@ -67,7 +67,7 @@ theorem stepDt_pos (s : RodasState ℚ) (I : RunInv E s) (hr : s.done = false) :
     0 < E.stepDt s ∧ s.t + E.stepDt s ≤ E.tend ∧ (E.isLast s = false → s.t + E.stepDt s < E.tend) := by
   have hlt := I.running hr
   have hdt : 0 < s.dt := lt_of_lt_of_le H.hmin I.dt_pos
-  simp only [RodasEnv.stepDt, RodasEnv.isLast, H.hf, Bool.false_eq_true, if_false, Bool.not_false, Bool.and_true]
+  simp only [RodasEnv.stepDt, RodasEnv.adaptDt, RodasEnv.isLast, H.hf, Bool.false_eq_true, if_false, Bool.not_false, Bool.and_true]
   by_cases hs : E.stretch s = true
   · simp only [hs, if_true, H.sub_eq]
     refine ⟨by linarith, by linarith, fun h => by simp at h⟩
